@@ -19,6 +19,7 @@ import (
 // Kinds of invocation.
 const (
 	KRevParseGitDir  = "rev-parse-git-dir"
+	KRevParseFacts   = "rev-parse-facts"
 	KRevParseGitPath = "rev-parse-git-path"
 	KConfigList      = "config-list"
 	KConfigGet       = "config-get"
@@ -100,51 +101,182 @@ func NewEnv(r *mrepo.Repo, p *Plan) *Env {
 	return &Env{Repo: r, Plan: p, Count: map[string]int{}}
 }
 
-// Classify maps git-sizer's argument vector (without argv[0]) to a kind and
-// the significant arguments.
+// Classify maps an argument vector of git (without argv[0]) to a kind and the
+// significant arguments. It reads the command line the way git does: global
+// options first (in any order and number), then the subcommand with its
+// options; what is recognised is what the model can answer faithfully, not the
+// literal spelling git-sizer happens to use today.
 func Classify(args []string) (kind string, rest []string, noReplace bool) {
 	a := args
-	if len(a) >= 4 && a[0] == "-C" && a[2] == "rev-parse" && a[3] == "--git-dir" && len(a) == 4 {
-		return KRevParseGitDir, []string{a[1]}, false
-	}
-	if len(a) >= 3 && a[0] == "--no-replace-objects" && a[1] == "-c" && a[2] == "advice.graftFileDeprecated=false" {
-		noReplace = true
-		a = a[3:]
-	} else {
-		return KUnexpected, args, false
-	}
-	eq := func(xs ...string) bool {
-		if len(a) < len(xs) {
-			return false
+	cdir := ""
+	for len(a) > 0 && strings.HasPrefix(a[0], "-") {
+		switch {
+		case a[0] == "--no-replace-objects":
+			noReplace = true
+			a = a[1:]
+		case a[0] == "-c" && len(a) > 1:
+			// a configuration parameter: none of the modelled answers depends on one
+			a = a[2:]
+		case a[0] == "-C" && len(a) > 1:
+			cdir = a[1]
+			a = a[2:]
+		case a[0] == "--git-dir" && len(a) > 1:
+			a = a[2:] // see GlobalGitDir
+		case strings.HasPrefix(a[0], "--git-dir="):
+			a = a[1:]
+		case a[0] == "--no-pager" || a[0] == "--literal-pathspecs" || a[0] == "--no-optional-locks":
+			a = a[1:]
+		default:
+			return KUnexpected, args, noReplace
 		}
-		for i := range xs {
-			if a[i] != xs[i] {
-				return false
+	}
+	if len(a) == 0 {
+		return KUnexpected, args, noReplace
+	}
+	sub, o := a[0], a[1:]
+	has := func(x string) bool {
+		for _, y := range o {
+			if y == x {
+				return true
 			}
 		}
-		return true
+		return false
 	}
-	switch {
-	case eq("rev-parse", "--git-path") && len(a) == 3:
-		return KRevParseGitPath, a[2:], noReplace
-	case eq("config", "--list", "-z") && len(a) == 3:
-		return KConfigList, nil, noReplace
-	case eq("config", "--get") && (len(a) == 3 || (len(a) == 4 && (a[2] == "--int" || a[2] == "--bool"))):
-		return KConfigGet, a[2:], noReplace
-	case eq("for-each-ref", "--format=%(objectname) %(objecttype) %(objectsize) %(refname)") && len(a) == 2:
-		return KForEachRef, nil, noReplace
-	case eq("rev-list") && revListFlagsOK(a[1:]):
-		// rest = the ordering flags given: the set of listing orders the
-		// explorer may answer with depends on them
-		return KRevList, a[1:], noReplace
-	case eq("cat-file", "--batch-check", "--buffer") && len(a) == 3:
-		return KBatchCheck, nil, noReplace
-	case eq("cat-file", "--batch", "--buffer") && len(a) == 3:
-		return KBatch, nil, noReplace
-	case eq("rev-parse", "--verify", "--end-of-options") && len(a) == 4:
-		return KRevParseVerify, a[3:], noReplace
+	// without drops the given words from o
+	without := func(xs ...string) []string {
+		var out []string
+	next:
+		for _, y := range o {
+			for _, x := range xs {
+				if y == x {
+					continue next
+				}
+			}
+			out = append(out, y)
+		}
+		return out
+	}
+	switch sub {
+	case "rev-parse":
+		switch {
+		case len(o) == 1 && o[0] == "--git-dir":
+			return KRevParseGitDir, []string{cdir}, noReplace
+		case len(o) == 2 && o[0] == "--git-path":
+			return KRevParseGitPath, o[1:], noReplace
+		case has("--verify"):
+			r := without("--verify", "--end-of-options", "--quiet", "-q")
+			if len(r) == 1 {
+				return KRevParseVerify, r, noReplace
+			}
+		default:
+			// repository facts, one answer line per option
+			ok := len(o) > 0
+			for _, x := range o {
+				switch x {
+				case "--git-dir", "--absolute-git-dir", "--is-shallow-repository", "--is-bare-repository", "--is-inside-git-dir", "--is-inside-work-tree":
+				default:
+					ok = false
+				}
+			}
+			if ok {
+				return KRevParseFacts, o, noReplace
+			}
+		}
+	case "config":
+		switch {
+		case has("--list") && (has("-z") || has("--null")) && len(without("--list", "-z", "--null")) == 0:
+			return KConfigList, nil, noReplace
+		case has("--get"):
+			r := without("--get")
+			var typ []string
+			var keys []string
+			for _, x := range r {
+				switch x {
+				case "--int", "--type=int":
+					typ = []string{"--int"}
+				case "--bool", "--type=bool":
+					typ = []string{"--bool"}
+				default:
+					if strings.HasPrefix(x, "-") {
+						return KUnexpected, args, noReplace
+					}
+					keys = append(keys, x)
+				}
+			}
+			if len(keys) == 1 {
+				return KConfigGet, append(typ, keys...), noReplace
+			}
+		}
+	case "for-each-ref":
+		if len(o) == 1 && strings.HasPrefix(o[0], "--format=") {
+			if _, ok := FormatRef(o[0][len("--format="):], "", "", 0, ""); ok {
+				return KForEachRef, []string{o[0][len("--format="):]}, noReplace
+			}
+		}
+	case "rev-list":
+		if revListFlagsOK(o) {
+			// rest = the ordering flags given: the set of listing orders the
+			// explorer may answer with depends on them
+			return KRevList, o, noReplace
+		}
+	case "cat-file":
+		if len(without("--batch-check", "--buffer")) == 0 && has("--batch-check") {
+			return KBatchCheck, nil, noReplace
+		}
+		if len(without("--batch", "--buffer")) == 0 && has("--batch") {
+			return KBatch, nil, noReplace
+		}
 	}
 	return KUnexpected, args, noReplace
+}
+
+// GlobalGitDir returns the repository named by a --git-dir global option ("" if
+// there is none); like git, it takes precedence over GIT_DIR in the environment.
+func GlobalGitDir(args []string) string {
+	for i := 0; i < len(args) && strings.HasPrefix(args[i], "-"); i++ {
+		switch {
+		case args[i] == "--git-dir" && i+1 < len(args):
+			return args[i+1]
+		case strings.HasPrefix(args[i], "--git-dir="):
+			return args[i][len("--git-dir="):]
+		case (args[i] == "-c" || args[i] == "-C") && i+1 < len(args):
+			i++
+		}
+	}
+	return ""
+}
+
+// FormatRef expands a for-each-ref format made of literal text and the atoms
+// %(objectname) %(objecttype) %(objectsize) %(refname); ok is false for any
+// other atom.
+func FormatRef(format string, id, kind string, size uint64, name string) (string, bool) {
+	var b strings.Builder
+	for len(format) > 0 {
+		i := strings.Index(format, "%(")
+		if i < 0 {
+			b.WriteString(format)
+			break
+		}
+		b.WriteString(format[:i])
+		j := strings.IndexByte(format[i:], ')')
+		if j < 0 {
+			return "", false
+		}
+		switch format[i+2 : i+j] {
+		case "objectname":
+			b.WriteString(id)
+		case "objecttype":
+			b.WriteString(kind)
+		case "objectsize":
+			b.WriteString(strconv.FormatUint(size, 10))
+		case "refname":
+			b.WriteString(name)
+		default:
+			return "", false
+		}
+		format = format[i+j+1:]
+	}
+	return b.String(), true
 }
 
 // LooksReadOnly tells whether an argument vector the model does not implement
@@ -274,6 +406,9 @@ func (e *Env) Run(args []string, environ []string, stdin io.Reader, stdout io.Wr
 			inv.Graft = kv[len("GIT_GRAFT_FILE="):]
 		}
 	}
+	if gd := GlobalGitDir(args); gd != "" {
+		inv.GitDir = gd
+	}
 	var fault *Fault
 	for i := range e.Plan.Faults {
 		if e.Plan.Faults[i].Kind == kind && e.Plan.Faults[i].Nth == nth {
@@ -361,6 +496,24 @@ func (e *Env) dispatch(kind string, rest []string, readLine func() (string, bool
 		}
 		fmt.Fprintf(out, "%s\n", gd)
 		return 0
+	case KRevParseFacts:
+		for _, x := range rest {
+			switch x {
+			case "--git-dir", "--absolute-git-dir":
+				gd := e.Plan.GitDir
+				if gd == "" {
+					gd = ".git"
+				}
+				fmt.Fprintf(out, "%s\n", gd)
+			case "--is-shallow-repository":
+				fmt.Fprintf(out, "%v\n", e.Plan.ShallowPath != "")
+			case "--is-bare-repository", "--is-inside-git-dir":
+				fmt.Fprintln(out, "false")
+			case "--is-inside-work-tree":
+				fmt.Fprintln(out, "true")
+			}
+		}
+		return 0
 	case KRevParseGitPath:
 		if rest[0] == "shallow" && e.Plan.ShallowPath != "" {
 			fmt.Fprintf(out, "%s\n", e.Plan.ShallowPath)
@@ -399,7 +552,8 @@ func (e *Env) dispatch(kind string, rest []string, readLine func() (string, bool
 				w.Flush()
 				return 128
 			}
-			fmt.Fprintf(w, "%s %s %d %s\n", r.ID, o.Kind, o.Size, r.Name)
+			line, _ := FormatRef(rest[0], string(r.ID), fmt.Sprint(o.Kind), o.Size, r.Name)
+			fmt.Fprintf(w, "%s\n", line)
 		}
 		w.Flush()
 		return 0
